@@ -104,6 +104,10 @@ func (l *SList[T]) Replace(oldVal, newVal T) error {
 func (l *SList[T]) Delete(node *SingleNode[T]) error {
 	head := &l.SingleNode
 
+	if node == nil {
+		return fmt.Errorf("the node to be deleted does not exists")
+	}
+
 	if _, found := l.Find(node.Value); !found {
 		return fmt.Errorf("the node to be deleted does not exists")
 	}
